@@ -434,3 +434,80 @@ def shape_frame_queries(spec, ndir=16):
         x2, y2 = shape_frame_queries(spec['r2'], ndir)
         return np.concatenate([x1, x2]), np.concatenate([y1, y2])
     return np.array(xs, float), np.array(ys, float)
+
+
+# ------------------------------------------------- construction routes ------
+def _scaled(spec, f, shift):
+    """A different valid spec of the same class (used as the 'before' state of the re-assignment route)."""
+    t = dict(spec)
+    for k in ('radius', 'width', 'height', 'inner_radius', 'outer_radius', 'inner_width', 'outer_width', 'inner_height', 'outer_height'):
+        if k in t:
+            t[k] = t[k] * f
+    if 'center' in t:
+        t['center'] = [t['center'][0] + shift, t['center'][1] - shift] if isinstance(t['center'][0], float) else [t['center'][0] + 3, t['center'][1] - 2]
+    if 'angle' in t and t['angle'] is not None:
+        t['angle'] = [t['angle'][0] + 11.0 * UNIT['deg'] / UNIT[t['angle'][1]]] + list(t['angle'][1:])
+    if 'vertices' in t:
+        t['vertices'] = [[v * f + shift for v in t['vertices'][0]], [v * f - shift for v in t['vertices'][1]]]
+    if 'start' in t:
+        t['start'] = [t['start'][0] + shift, t['start'][1]]
+        t['end'] = [t['end'][0], t['end'][1] - shift]
+    return t
+
+
+def build_via_reassign(spec):
+    """The same region as ``build(spec)`` reached through another history: it is first built with other
+    parameters and *used* (membership, box, area, mask), then every parameter is re-assigned.  Any state that
+    is derived once and cached on the instance makes this region differ from a freshly built one."""
+    from regions import PixCoord
+    cls = spec['cls']
+    if cls == 'compound':
+        import operator
+        r = build(spec)
+        r.region1 = build_via_reassign(spec['r1'])
+        r.region2 = build_via_reassign(spec['r2'])
+        return r
+    if cls == 'regpoly':
+        return build(spec)       # its vertices are derived at construction by design
+    size = Ref(spec).size() if cls not in EMPTY else 1.0
+    before = _scaled(spec, 1.7, 0.6 * size)
+    reg = build(before)
+    probe = PixCoord(np.array([0.0, 1.5]), np.array([0.25, -2.0]))
+    for use in (lambda: reg.contains(probe), lambda: reg.bounding_box, lambda: reg.area,
+                lambda: reg.to_mask('center'), lambda: reg.as_artist()):
+        try:
+            use()
+        except Exception:
+            pass
+    sizes = [k for k in ('radius', 'width', 'height', 'outer_radius', 'outer_width', 'outer_height',
+                         'inner_radius', 'inner_width', 'inner_height') if k in spec]
+    # shrinking: inner sizes first, so that inner < outer holds at every step
+    for k in sorted(sizes, key=lambda n: 0 if n.startswith('inner') else 1):
+        setattr(reg, k, spec[k])
+    if 'center' in spec:
+        reg.center = PixCoord(spec['center'][0], spec['center'][1])
+    if spec.get('angle') is not None:
+        reg.angle = _angle_obj(spec['angle'])
+    if 'vertices' in spec:
+        reg.vertices = PixCoord(np.array(spec['vertices'][0], float), np.array(spec['vertices'][1], float))
+    if 'start' in spec:
+        reg.start = PixCoord(*spec['start'])
+        reg.end = PixCoord(*spec['end'])
+    meta, vis = _meta(spec)
+    reg.meta = meta
+    reg.visual = vis
+    return reg
+
+
+def route_of(spec):
+    """Deterministic choice of the construction route for a spec (every 4th spec by hash is re-assigned)."""
+    import json
+    import zlib
+    h = zlib.crc32(json.dumps(spec, sort_keys=True, default=repr).encode())
+    return 'reassign' if h % 4 == 0 else 'fresh'
+
+
+def build_routed(spec):
+    if route_of(spec) == 'reassign':
+        return build_via_reassign(spec)
+    return build(spec)
